@@ -122,3 +122,5 @@ func goTest(c *Config, hist []string) string {
 	fmt.Fprintf(&b, "\tg.PrintState()\n}\n")
 	return b.String()
 }
+
+func jsonUnmarshal(b []byte, v any) error { return json.Unmarshal(b, v) }
